@@ -242,7 +242,7 @@ func (m *machine) Next(t *rapid.T) op {
 		}
 		return o
 	case k < 68:
-		return op{Kind: "block", Dt: gen.Dt(t, "dt")}
+		return op{Kind: "block", Dt: gen.DtFar(t, "dt", m.c.Time())}
 	case k < 70:
 		// the poor creator's funds are moved away (the next batch of its running feeds cannot be paid: automatic
 		// pause) or topped up again
@@ -829,6 +829,7 @@ func (m *machine) Classify() (bool, []string) {
 	add(m.nValues >= 2, "values>=2")
 	add(m.nNegative > 0, "all-negative-set")
 	add(m.nTrim > 0, "history-trim")
+	add(m.c.Time().Year() > 2262 && m.nValues > 0, "block-time-beyond-2262")
 	add(m.nBelowThr > 0, "below-threshold-batch")
 	add(m.nStranger > 0, "stranger-attempt")
 	add(m.nNoField > 0, "answer-without-field")
